@@ -63,9 +63,6 @@ Definition ftrunc (x : fl) : Z :=
 Definition ffrac (x : fl) : fl :=
   if 0 <=? fe x then fzero else rne2 (Z.rem (fm x) (2 ^ (- fe x))) (fe x).
 
-Definition fltb (x y : fl) : bool :=
-  let e := Z.min (fe x) (fe y) in
-  fm x * 2 ^ (fe x - e) <? fm y * 2 ^ (fe y - e).
 Definition fneg (x : fl) : bool := fm x <? 0.
 
 (* C round(): half away from zero, to an integer *)
@@ -83,11 +80,3 @@ Definition fround_even (x : fl) : Z :=
   if Z.abs (2 * (fm x - r * q)) =? q
   then 2 * fround_away {| fm := fm x; fe := fe x - 1 |}
   else r.
-
-(* Python float % positive int constant w: fmod (exact) and sign adjustment *)
-Definition fmod_pos (x : fl) (w : Z) : fl :=
-  (* exact remainder with the sign of x *)
-  let r := if 0 <=? fe x then rne (Z.rem (fm x * 2 ^ fe x) w) 1
-           else rne2 (Z.rem (fm x) (w * 2 ^ (- fe x))) (fe x) in
-  if fm r =? 0 then fzero
-  else if fneg r then fadd r (of_Z w) else r.
